@@ -68,3 +68,12 @@ struct CrcParams {
         uint32_t xorout;
 };
 uint32_t ref_crc(const CrcParams &p, const uint8_t *msg, size_t len);
+
+// ---- key schedules written from the standards (C11)
+// AES key expansion (FIPS-197 5.2) and the equivalent-inverse-cipher decrypt schedule (5.3.5):
+// enc = Nr+1 round keys of 16 bytes; dec[0]=enc[Nr], dec[i]=InvMixColumns(enc[Nr-i]) for 0<i<Nr, dec[Nr]=enc[0]
+void ref_aes_keyexp(const uint8_t *key, size_t key_len, uint8_t *enc, uint8_t *dec);
+void ref_cmac_subkeys(const BlockCipher &c, uint8_t k1[16], uint8_t k2[16]);
+void ref_xcbc_keys(const uint8_t key[16], uint8_t k1[16], uint8_t k2[16], uint8_t k3[16]);
+// state words of the hash after absorbing one block (key xor pad), in host word order; returns byte count
+size_t ref_hmac_pad_state(HashId h, const uint8_t *key, size_t key_len, uint8_t pad, uint8_t *out);
